@@ -692,6 +692,39 @@ func (ra *recAnalysis) guardOf(e *recEdge, comp map[*ssa.Function]bool) string {
 				}
 			}
 		}
+		// G1 through a helper: `if err := i.pushFrame(…); err != nil { return … }` / `if i.limitExceeded() { return … }` where
+		// the helper compares a counter with a constant (the bound test was extracted into a function of its own)
+		for x := range core.BackSliceLocal(iff.Cond) {
+			call, ok := x.(*ssa.Call)
+			if !ok {
+				continue
+			}
+			h := call.Common().StaticCallee()
+			if h == nil || h.Blocks == nil || !ra.in[h] || h == fn {
+				continue
+			}
+			for _, hb := range h.Blocks {
+				hif, ok := hb.Instrs[len(hb.Instrs)-1].(*ssa.If)
+				if !ok {
+					continue
+				}
+				bo, ok := hif.Cond.(*ssa.BinOp)
+				if !ok {
+					continue
+				}
+				switch bo.Op {
+				case token.LSS, token.LEQ, token.GTR, token.GEQ:
+					for _, pair := range [][2]ssa.Value{{bo.X, bo.Y}, {bo.Y, bo.X}} {
+						if _, isConst := pair[1].(*ssa.Const); !isConst {
+							continue
+						}
+						if name := counterName(pair[0]); name != "" && (ra.counterAdvanced(name, comp) || ra.counterAdvanced(name, map[*ssa.Function]bool{h: true})) {
+							return "G1: guarded by a bound on " + name + " tested in the helper " + core.FnName(h) + " at " + ra.prog.Loc(bo.Pos())
+						}
+					}
+				}
+			}
+		}
 		// G2 through a helper: `if l.visited(x) { …leave… }` where the helper tests membership in a set (map field)
 		// and inserts into the same set on its miss path
 		{
